@@ -453,7 +453,7 @@ def run(ctx, chk):
     sub_t = Sub(chk, "C03-e", lambda r: r in ("C17-e/text-codepage",))
     rules_c17.text(sub_t, [ctx.crate("zvt_builder"), ctx.crate("zvt")])
     chk.floor("text code page obligations (shared with C17-e)", sub_t.count, 1)
-    sub = Sub(chk, "C03-c", lambda r: r.startswith("C16-b/"), instance_filter=lambda i: "Adpu" in str(i))
+    sub = Sub(chk, "C03-c", lambda r: r.startswith("C16-b/"))       # APDU and BER-TLV length forms
     rules_c16.run(ctx, sub)
     # the LLVAR / LLLVAR prefixes of the rows above: N decimal digits as F0|digit, most significant first, no truncating cast
     sub_l = Sub(chk, "C03-a", lambda r: r.startswith(("C16-d/", "C16-f/")))
